@@ -232,7 +232,7 @@ CHECKS = {
 EXTRA = {
  'C17': " Real keys in canonical and in loadable non-canonical encodings, PEM and with trailing bytes: the hash is over the bytes as received. Calling styles cycle through positional, keywords (two orders), bytearray and memoryview arguments. A sample is repeated with the root logger at DEBUG, and from four threads under yield injection. The real LoginReactor.react is fed several encryption requests in a row and the hash it hands to the token stub is compared; non-ASCII ids hashed in child interpreters under C/POSIX locales with UTF-8 mode off.",
  'C08': " Context objects that were in use before a rebuild are compared again after it; run-time extensions include a second release-style name for an older release's number. Legacy way: derived tables edited directly + initglobals(), then a rebuild from the unchanged records must restore everything. Run-time records of other kinds (Version subclass, wider namedtuple, plain object) and release names with a multi-digit first component; an exception from the rebuild is a verdict. Supported flags that are truthy/falsy objects other than bools.",
- 'C01': " Sequences also contain writes that fail half-way; a failed write must emit nothing and leave its successors intact. Payload fills include all-zero, single-byte, periodic and incompressible data (sizes to 256 KiB in thorough); live sessions: numbered packets queued on a real Connection (any threshold, cipher on/off) with an outgoing listener that writes or asks for a disconnect in mid-loop must reach the independent server once each, in order. Live sessions also flush more than one write batch (301-700 queued packets) and judge the read side: server streams with empty-collection packets must be dispatched as the same sequence. Directed: a forced write held in an early listener while Set Compression is processed must leave in the compressed format; bulk flushes up to 1500 packets. A third of the reference streams use zero-padded 3-byte length fields. The reference writer's deflate streams come finished, sync-flushed (never finished), multi-block and stored. Live sessions with one client send() refused once (ENOBUFS/EINTR/EAGAIN/ENOMEM, prefix and body positions): whole frames in order, a clean prefix if an error is reported, everything if not.",
+ 'C01': " Sequences also contain writes that fail half-way; a failed write must emit nothing and leave its successors intact. Payload fills include all-zero, single-byte, periodic and incompressible data (sizes to 256 KiB in thorough); live sessions: numbered packets queued on a real Connection (any threshold, cipher on/off) with an outgoing listener that writes or asks for a disconnect in mid-loop must reach the independent server once each, in order. Live sessions also flush more than one write batch (301-700 queued packets) and judge the read side: server streams with empty-collection packets must be dispatched as the same sequence. Directed: a forced write held in an early listener while Set Compression is processed must leave in the compressed format; bulk flushes up to 1500 packets. A third of the reference streams use zero-padded 3-byte length fields. The reference writer's deflate streams come finished, sync-flushed (never finished), multi-block and stored. Live sessions with one client send() refused once (ENOBUFS/EINTR/EAGAIN/ENOMEM, prefix and body positions): whole frames in order, a clean prefix if an error is reported, everything if not. Bulk flushes of 5000 queued packets.",
  'C02': " Also: strings at the 32767-character limit in multi-byte scripts and special code points; a sink that raises must not poison the next encoding. Strings beyond 32767 characters (chat components) round-trip. Strings and byte arrays whose length is an exact multiple of 4096 (to 140000 bytes). FixedPoint over every carrier with 0, 1, 4 and 7 fractional bits. Each type's value list is also encoded forwards and backwards in one process through a sink that keeps the chunk objects (0.0 / -0.0 and other equal-but-distinct values meet; buffers handed out twice show). Arrays of user subclasses (inherited context-aware codecs); angles up to the float maximum.",
  'C03': " Also: a failing sink followed by a normal encoding, and three threads encoding/decoding concurrently (1 microsecond switch interval). Stream-kind independence: the same encodings decoded from io.BytesIO and from io.BufferedReader over a raw stream delivering every partition into chunks (buffer sizes 1, 3, 8192) must give the same outcome and cursor. read_with_context/send_with_context must agree with read/send for both types; a stream object that is refilled after a truncated read must decode the new content on its own. A terminated in-width encoding that is not minimal must decode (raising is allowed only at end of stream or on an over-long encoding). Sinks that keep the chunks they were given (compared after the call) and a stream subclass with an overridden read(). The concurrent section has a second pass under yield injection inside the codec module; exceptions in worker threads are verdicts; reentrant use: a de-framing stream whose read() decodes record lengths with the same type, a sink whose send() encodes with the same type. Sinks whose send() returns None, the length, short counts, 0, negatives, bools or strings: encoding terminates.",
  'C04': " Also: one context object whose version is reassigned along walks across the switch, and two threads using versions on either side of it concurrently. A dense cube around the origin and sibling runs (consecutive positions differing in one axis by one, two, sign or one bit). After another thread has reassigned the version of a context in use, the codec must follow the current version (yield injection); versions registered at run time in a fresh interpreter (after the types were imported) get the layout their place in the version list implies. Decoded coordinates must be ints and re-encode to the same bytes; records are built through x/y/z, a position tuple and a Vector. The concurrent hammer includes block records and a pass under yield injection in the codec modules.",
@@ -240,14 +240,14 @@ EXTRA = {
  'C06': " Tables are re-read newest-first, shuffled and alternating and must not change; reactors are first built by four threads at once under yield injection. Context objects with a history (reassigned, copy.copy, copy.deepcopy, queried alternately with the original) and a user subclass of every library packet class must leave every table as a fresh context sees it. Snapshots of all tables and reactor dicts from fresh interpreters started plain, -O and -OO must agree; three threads query the tables for different versions under yield injection. An instance's id follows the current version of its context object (34 classes asked, reassigned, asked again).",
  'C07': " Releases are visited in shuffled order, every other packet through one context object with reassigned version. At every published id of a core packet the state table must offer the core class as the only claimant (the reader's id->class slot). Release names resolve to the published numbers (45 names, also against the README); keep-alive ids beyond 2^31; one packet object written through live connections of different releases. Strings with U+FEFF, NUL and surrounding spaces; NBT values that carry a tag name of their own are written with the empty root name. Join Game with up to 300 world names.",
  'C09': " A decoy Connection (other address, user and callbacks) is constructed after the one under test; a third of the status queries follow a compressed login on the same object; reply versions are biased to the snapshots where login ids rotate. Replies arrive whole, byte-wise, in 3+ fragments or padded, through forced short reads; mismatch replies carry known version names that contradict the protocol number; callback order of a plain query is judged. A server that closes on accept while the client's query write fails; replies that arrive 6 s (thorough: 12, 31 s) late still decide. Version names full of format metacharacters; a status handler that raises IgnorePacket must not stop ping, close and exit callback. Every known-but-unsupported name is refused and every supported name accepted at construction. Replies reporting protocol 0; allowed sets that mix a supported pre-release with later releases. A directed list of boundary replies (protocol 0, 1, oldest/newest known-unsupported; three allowed sets; named/unnamed) is always driven. Custom status/latency handlers are functions, bound methods of unreferenced objects, partials and falsy callable objects; the wall clock is stepped (-30 s, +1 h) between ping and pong and the latency is bounded by the query's duration on the monotonic clock. A constructor that raises for supported versions (names and numbers mixed) is a verdict.",
- 'C10': " A quarter of the logins are the second connection of the object (after an encrypted+compressed session, or after a failed one with an answer still queued), a third are reached through negotiation, server frames of exactly threshold bytes are included, a decoy object is present in a third. Forced short reads; a server that refuses the login and resets before the client's first write. User plugin handlers answer with implicit success and empty payloads, and answers queued while the encryption response is being written must travel encrypted. Disconnect reasons with bare-string siblings; plugin and encryption requests in one segment; a slow listener on the encryption request. Plugin message ids with bit 31 set; the packets after a state transition travel in the same segment as the transition packet. 'Outdated' messages naming versions the library does not know; user names of several shapes verified in login start. Plugin requests of one login may share a message id (0 included): each is answered. With an online server id and a token, the join must have reached the session service before the encryption response is written (observed in the client's thread by an early outgoing listener).",
+ 'C10': " A quarter of the logins are the second connection of the object (after an encrypted+compressed session, or after a failed one with an answer still queued), a third are reached through negotiation, server frames of exactly threshold bytes are included, a decoy object is present in a third. Forced short reads; a server that refuses the login and resets before the client's first write. User plugin handlers answer with implicit success and empty payloads, and answers queued while the encryption response is being written must travel encrypted. Disconnect reasons with bare-string siblings; plugin and encryption requests in one segment; a slow listener on the encryption request. Plugin message ids with bit 31 set; the packets after a state transition travel in the same segment as the transition packet. 'Outdated' messages naming versions the library does not know; user names of several shapes verified in login start. Plugin requests of one login may share a message id (0 included): each is answered. With an online server id and a token, the join must have reached the session service before the encryption response is written (observed in the client's thread by an early outgoing listener). Disconnect texts 'Outdated client/server' naming a release whose protocol number is the client's own.",
  'C11': " A third of the conversations are the second session of the object (opposite transport settings, possibly another version); protocol 47 also switches compression on during play; fault classes: close and reset right after the disconnect packet; decoy object in a third. The reset fault class extends to 400 packets and waits (SIOCOUTQ) until everything was delivered; a directed schedule puts the reset between two echo writes of one batch; thorough adds 11 s and 31 s silent gaps inside a frame. Directed: the client leaves from an outgoing listener in mid-write; chat components and disconnect reasons of 33000-70000 characters; after set-compression(0) in play state every client frame must be compressed. Every compressed conversation contains frames of exactly threshold size. Bounded progress under inbound load: with 4000 frames already buffered behind a keep-alive the answer is written after at most 1000 dispatched packets (50 observed); free-running flood variant bounded by 60000 frames; descriptors still held by Connection objects whose sessions have ended; a slow consumer in a fifth of the conversations. Object state read by the user after an orderly session (connected, version, address, exception, threads); pairs of conversations running concurrently on two Connection objects. Directed conversations with frames inflating to exactly 2 MiB / 8 MiB (from 756), one byte less and 2 MiB + 1. Conversations with an outgoing listener on the library's own keep-alive answers that takes 80 ms (longer than one tick).",
- 'C12': " After every API call the calling thread must not own the write lock; forced writes that raise are part of the workload; after an immediate disconnect the same object reconnects and its first frames must be handshake and login start with no stale payload. Back-pressure engine: small socket buffers, a server that stalls, frames up to 400 KB from 1-3 threads (blocked sends are counted). Flushing disconnects with more than 300 packets queued and disconnects issued from an outgoing listener while others keep writing. Half of the stress runs also contain a server burst whose answers the networking thread queues itself (order judged); bulk queues up to 2600 packets. The wall clock is stepped (+-1 h, +400 days) at the third send of a flush; the queue proxy yields after the append as well as before it. An ordinary outgoing listener failing after the send, with a flushing disconnect() from the exception handler: each queued packet at most once, in order.",
- 'C13': " A second registration phase in mid-session (sentinel frames delimit the phases) and concurrent registration from two threads are included. Outgoing listeners that themselves write (nested dispatch) and, from protocol 755, the specialised combat-event subclasses under a superclass filter. Packets with empty collections, accounting of dispatched vs sent packets per class, an early listener that disconnects without ignoring. The same packet object written three times; the server kicks (packets + disconnect + close) while a client write is failing - everything received is still dispatched. One decorator object applied to two functions; one callable registered twice in a list. Every listener is drawn from five kinds of callable (function, bound method of an object nobody else refers to, partial, callable instance, falsy callable instance); garbage is collected after registration. Directed: an early listener ignoring Set Compression (server stays uncompressed); a packet whose send is refused once - early outgoing listeners exactly once, late ones at most once, packet at most once on the wire.",
- 'C14': " Final handler modes include a reconnecting one; a delay-injection scenario has another thread inside connect() while the failing thread decides on its teardown. Two more origins: an OSError-family fault from a listener during the negotiation status phase, and an outgoing-listener fault while the server's disconnect packet is already readable. Handler behaviours include reconnect-and-raise and disconnect; faults with packets still queued and a guard listener; the exception that escapes the thread must be the routed one. Handlers return None/False/True/0/''; a final handler that delegates the reconnect to a supervisor thread and waits (a dead-lock is proven by the owner of the write lock). Filters spelled as tuples/nested tuples; a listener that disconnects and then fails with a transport-flavoured exception type. Origin 'fallback-connect-refused' (exception raised inside the reactor's own hook); a user thread reconnecting while the failing thread is in its handler, with the successor's start delayed. Chains contain the same handler registered twice with the same filter (also as an early re-registration) and filters made only of BaseException subclasses outside Exception. Fault objects that refuse attribute assignment; the first handler of a chain may use a bare raise and sees the fault as the active exception.",
+ 'C12': " After every API call the calling thread must not own the write lock; forced writes that raise are part of the workload; after an immediate disconnect the same object reconnects and its first frames must be handshake and login start with no stale payload. Back-pressure engine: small socket buffers, a server that stalls, frames up to 400 KB from 1-3 threads (blocked sends are counted). Flushing disconnects with more than 300 packets queued and disconnects issued from an outgoing listener while others keep writing. Half of the stress runs also contain a server burst whose answers the networking thread queues itself (order judged); bulk queues up to 2600 packets. The wall clock is stepped (+-1 h, +400 days) at the third send of a flush; the queue proxy yields after the append as well as before it. An ordinary outgoing listener failing after the send, with a flushing disconnect() from the exception handler: each queued packet at most once, in order. One packet object queued several times (also last) before a flushing disconnect; an incoming listener force-writing while a user thread is between the two sends of its frame.",
+ 'C13': " A second registration phase in mid-session (sentinel frames delimit the phases) and concurrent registration from two threads are included. Outgoing listeners that themselves write (nested dispatch) and, from protocol 755, the specialised combat-event subclasses under a superclass filter. Packets with empty collections, accounting of dispatched vs sent packets per class, an early listener that disconnects without ignoring. The same packet object written three times; the server kicks (packets + disconnect + close) while a client write is failing - everything received is still dispatched. One decorator object applied to two functions; one callable registered twice in a list. Every listener is drawn from five kinds of callable (function, bound method of an object nobody else refers to, partial, callable instance, falsy callable instance); garbage is collected after registration. Directed: an early listener ignoring Set Compression (server stays uncompressed); a packet whose send is refused once - early outgoing listeners exactly once, late ones at most once, packet at most once on the wire. A subclass of a registered leaf class defined after registration.",
+ 'C14': " Final handler modes include a reconnecting one; a delay-injection scenario has another thread inside connect() while the failing thread decides on its teardown. Two more origins: an OSError-family fault from a listener during the negotiation status phase, and an outgoing-listener fault while the server's disconnect packet is already readable. Handler behaviours include reconnect-and-raise and disconnect; faults with packets still queued and a guard listener; the exception that escapes the thread must be the routed one. Handlers return None/False/True/0/''; a final handler that delegates the reconnect to a supervisor thread and waits (a dead-lock is proven by the owner of the write lock). Filters spelled as tuples/nested tuples; a listener that disconnects and then fails with a transport-flavoured exception type. Origin 'fallback-connect-refused' (exception raised inside the reactor's own hook); a user thread reconnecting while the failing thread is in its handler, with the successor's start delayed. Chains contain the same handler registered twice with the same filter (also as an early re-registration) and filters made only of BaseException subclasses outside Exception. Fault objects that refuse attribute assignment; the first handler of a chain may use a bare raise and sees the fault as the active exception. Final handlers that unregister themselves.",
  'C15': " Crash points include 'closes on accept'; a plain status() after a negotiation that ended in its status phase (reactor construction slowed down) and the automatic fallback session (must be an ordinary session) are judged too. Scenarios also cover a default version outside a multi-element allowed set (a looping client is a violation) and status() with latency measurement cut after the ping. Resets at frame boundaries also in quick; a thread that keeps running at full CPU after the peer has gone is a violation (per-thread CPU time); login connect refused after a complete status reply. Case-to-shard assignment is by hash of the case. Frames of 300, 20000 and 70000 bytes (cuts inside 2- and 3-byte length prefixes and inside a body beyond 64 KiB, sampled offsets). Directed: a half-open peer that no longer reads while a backlog is queued; a forced write inside a listener that is the first to notice the server's close. A second Connection object stalled in a blocking send while the first one's server stops inside a frame. In a third of the cut points the wall clock is stepped +-1 h at the moment the server goes away; a thread that then neither ends nor runs, with no connection open, is a violation. Connections on descriptor numbers >= 1100 (select()'s FD_SETSIZE): work, or report and end - never spin.",
- 'C16': " Deterministic delay-injection scenarios: hand-over gap, check-vs-lock, stale read (LINE hook at the read statement), cancel-reconnect inside a listener; every history ends with a reuse probe. Histories include disconnects of a thread blocked inside a frame from a silent server, and the same action pairs after sessions that switched on encryption. Actions also cover disconnect() during an unanswered version negotiation (with a pause injected between socket shutdown and stream close) and a listener that reconnects and lingers 3-4 s. connect() from the latency callback of status(); an early keep-alive listener that reconnects without IgnorePacket (no reply of the old session may reach the new one). An exit callback that reconnects and lingers; descriptors and networking threads left behind by the histories are accounted. Two-connection cases: listeners that disconnect each other's connection at the same moment; an exit callback that delegates the reconnect to a supervisor thread and waits. Refused calls on an active connection are made by a listener (the networking thread) in half of the cases; directed: the networking thread is held at each statement of the encryption branch of LoginReactor.react while a user thread disconnects - later disconnect() calls must not raise and the object must connect again. Around every refused call the live connection is spawned and its allowed versions widened: spawned/connected/protocol version must not change; disconnect() whose flush fails with time-out/unreachable/no-buffers errors does not raise and the thread ends.",
- 'C18': " End to end: histories of accepted/rejected/dropped encrypted logins on one Connection object; every secret recovered by the key holder must be new and the accepted sessions must work. The e2e sessions include a slow listener on the encryption request (encrypted bytes already waiting in the same read batch) and a consumer that takes part of the incoming stream through connection.socket.recv. Secrets must stay fresh when the application re-seeds `random`; concurrent hand-overs to servers with different keys under yield injection. A plugin request in the same segment as the encryption request (answer in the clear before, or encrypted after, the response); a late outgoing listener raising IgnorePacket on the response. Zero-length reads inside partitions; an exception from a wrapper call is a verdict. Every I/O method the cipher wrappers offer over a real socket pair (send/sendall/sendmsg/recv/recv_into/read/readinto/readline/...) must continue the cipher stream. The underlying send() refused once with a transient errno: what reached the socket is the encryption of what was accepted; recv(n, MSG_PEEK) - refused, or harmless to the stream.",
+ 'C16': " Deterministic delay-injection scenarios: hand-over gap, check-vs-lock, stale read (LINE hook at the read statement), cancel-reconnect inside a listener; every history ends with a reuse probe. Histories include disconnects of a thread blocked inside a frame from a silent server, and the same action pairs after sessions that switched on encryption. Actions also cover disconnect() during an unanswered version negotiation (with a pause injected between socket shutdown and stream close) and a listener that reconnects and lingers 3-4 s. connect() from the latency callback of status(); an early keep-alive listener that reconnects without IgnorePacket (no reply of the old session may reach the new one). An exit callback that reconnects and lingers; descriptors and networking threads left behind by the histories are accounted. Two-connection cases: listeners that disconnect each other's connection at the same moment; an exit callback that delegates the reconnect to a supervisor thread and waits. Refused calls on an active connection are made by a listener (the networking thread) in half of the cases; directed: the networking thread is held at each statement of the encryption branch of LoginReactor.react while a user thread disconnects - later disconnect() calls must not raise and the object must connect again. Around every refused call the live connection is spawned and its allowed versions widened: spawned/connected/protocol version must not change; disconnect() whose flush fails with time-out/unreachable/no-buffers errors does not raise and the thread ends. NetworkingThread.start failing once; listeners raising SystemExit/KeyboardInterrupt, then connect() with and without disconnect(); the ordinary listener for the status response after a racing disconnect.",
+ 'C18': " End to end: histories of accepted/rejected/dropped encrypted logins on one Connection object; every secret recovered by the key holder must be new and the accepted sessions must work. The e2e sessions include a slow listener on the encryption request (encrypted bytes already waiting in the same read batch) and a consumer that takes part of the incoming stream through connection.socket.recv. Secrets must stay fresh when the application re-seeds `random`; concurrent hand-overs to servers with different keys under yield injection. A plugin request in the same segment as the encryption request (answer in the clear before, or encrypted after, the response); a late outgoing listener raising IgnorePacket on the response. Zero-length reads inside partitions; an exception from a wrapper call is a verdict. Every I/O method the cipher wrappers offer over a real socket pair (send/sendall/sendmsg/recv/recv_into/read/readinto/readline/...) must continue the cipher stream. The underlying send() refused once with a transient errno: what reached the socket is the encryption of what was accepted; recv(n, MSG_PEEK) - refused, or harmless to the stream. The send of the encryption response failing with a broken pipe (no cipher afterwards); shutdown(SHUT_WR) on the wrapper leaves the incoming direction working.",
  'C19': " Error replies include bodies and fields full of str.format / % metacharacters. 24 further 4xx/5xx status codes; bodies that are not valid UTF-8; the error type's constructor. Success replies repeat part of the stored state (same profile id under a new name, same name, same tokens). Overload statuses carry a Retry-After header in half of the cases (one request, one outcome); error objects in declared charsets ISO-8859-1, windows-1252 and UTF-16. Token subclass / instance overriding the agent attributes; a token whose profile attribute is None.",
  'C20': " Map patches with an incomplete last row; twin enum classes queried ints-first and other-types-first must agree. Maps that are not square; record construction by position; accessor setters starting from existing values and in both orders. Map histories reuse one icon list edited in place between packets; records with any proper subset of fields set are given to position_and_look on four packet classes (no value may land under another field's name). A flag class's very first question is pre-empted at every statement while a second thread asks; map packets are built from the tracked map's own icon list or a generator over it. Records holding one shared NaN object or compared with themselves; copies and pickles of records and vectors; one-shot iterables assigned through aliases.",
 }
